@@ -146,7 +146,15 @@ def oracle(case):
                 in_hdr += 1
             else:
                 in_body += 1
-        t = data_dump.DATADumpFile(io.BytesIO(blob[:k]))
+        if case["realfile"] and k in (0, L // 2, L - 1, ends[0] - 1 if ends else 0):
+            # the same cut on a real file that is then re-opened by path (mode "a+b"), as after a crash
+            tp = os.path.join(TMPDIR, "cut-%d.bin" % os.getpid())
+            with open(tp, "wb") as f_:
+                f_.write(blob)
+            os.truncate(tp, k)
+            t = data_dump.DATADumpFile(tp)
+        else:
+            t = data_dump.DATADumpFile(io.BytesIO(blob[:k]))
         try:
             try:
                 r = t.parse_all()
@@ -171,6 +179,8 @@ def oracle(case):
                         idx, k, r, complete))
         finally:
             t.f.close()
+            if isinstance(getattr(t.f, "name", None), str) and os.path.exists(t.f.name):
+                os.unlink(t.f.name)
     sizes = set()
     prev = 0
     for e in ends:
